@@ -783,3 +783,56 @@ def union_universe(rng):
         return C["Root"](**kw)
 
     return desc, build
+
+
+# --------------------------------------------------------------------------
+# UnionNode.child / bind under the lxml handler's loop (op c08.union_record)
+# --------------------------------------------------------------------------
+def union_tokens(tree):
+    """nested element tree {"q", "a": [[k, v]], "c": [...]} -> [["start", id, q, attrs] | ["end", id, q]]"""
+    out = []
+    counter = [0]
+
+    def go(n):
+        counter[0] += 1
+        i = counter[0]
+        out.append(["start", i, n["q"], [list(kv) for kv in n["a"]]])
+        for c in n["c"]:
+            go(c)
+        out.append(["end", i, n["q"]])
+
+    for c in tree["c"]:
+        go(c)
+    return out
+
+
+def real_union_record(tree):
+    """a real UnionNode fed the way LxmlEventHandler feeds the parser for the content of a union element:
+    `child(tag, element.attrib, element.nsmap, …)` at a start, `bind(…)` then `element.clear()` at an end"""
+    from xsdata.formats.dataclass.parsers.nodes import UnionNode
+
+    def markup(n):
+        at = "".join(f' {k}="{esc_attr(v, chr(34))}"' for k, v in n["a"])
+        return f"<{n['q']}{at}>" + "".join(markup(c) for c in n["c"]) + f"</{n['q']}>"
+
+    var = type("V", (), {"types": (), "qname": "u"})()
+    node = UnionNode(meta=None, var=var, attrs={}, ns_map={}, position=0, config=None, context=None)
+    data = markup({"q": "u", "a": [], "c": tree["c"]}).encode()
+    depth = 0
+    for event, el in LE.iterparse(io.BytesIO(data), ("start", "end")):
+        if event == "start":
+            depth += 1
+            if depth > 1:
+                node.child(el.tag, el.attrib, el.nsmap, 0)
+        else:
+            if depth > 1:
+                node.bind(el.tag, el.text, el.tail, [])
+                el.clear()
+            depth -= 1
+    out = []
+    for ev in node.events:
+        if ev[0] == "start":
+            out.append(["start", ev[1], [[k, v] for k, v in dict(ev[2]).items()]])
+        else:
+            out.append(["end", ev[1]])
+    return {"ok": out}
